@@ -1,10 +1,11 @@
 #!/bin/sh
-# Re-assembles DESIGN.md: the plan (sections 1-10, everything above the marker) + design/AS_BUILT.md
+# Re-assembles DESIGN.md: the plan (sections 1-10, everything above the FIRST marker line) + design/AS_BUILT.md
 # + the table generated from seeded/*/meta.json.
 cd "$(dirname "$0")/.."
 M='<!-- AS-BUILT BELOW: assembled by tools/mkdesign.sh from design/AS_BUILT.md and seeded/*/meta.json -->'
-if grep -qF "$M" DESIGN.md; then
-  sed -n "/$(printf '%s' "$M" | sed 's/[\/&]/\\&/g')/q;p" DESIGN.md > DESIGN.md.new
+N=$(grep -nF "$M" DESIGN.md | head -1 | cut -d: -f1)
+if [ -n "$N" ]; then
+  head -n "$((N - 1))" DESIGN.md > DESIGN.md.new
 else
   cp DESIGN.md DESIGN.md.new
 fi
